@@ -167,7 +167,7 @@ PROPS['C05'] = dict(
     level='other',
     level_text=('Bounded contract check (Kani/CBMC) of the tap-hold decision on the real crate: WaitingState::handle_hold_tap and tick_wt (HoldTap arm) '
                 'against the decision table of the property statement for the three built-in variants, every clock value, and every queue of <= 4 '
-                'events over 3 keys; plus "fires exactly at the H-th tick" for H <= 6 (bounded stand-in, not a proof). The DECISION ITSELF is additionally proved UNBOUNDED by Verus (unit holdtap): [and WaitingState::tick_wt, cut WHOLE with handle_hold_tap as a callee under contract: one millisecond - timeout counts down, age counts up, both saturating - and THEN the decision table, so the tick on which the last millisecond elapses is the tick that reports the timeout; nothing else of the pending decision or the queue changes; this is the unbounded counterpart of the bounded harnesses c05_b_tick_wt_hold_tap / c05_b_timeout_on_time] '
+                'events over 3 keys; plus "fires exactly at the H-th tick" for H <= 6 (bounded stand-in, not a proof). The DECISION ITSELF is additionally proved UNBOUNDED by Verus (unit holdtap): [and WaitingState::tick_wt, cut WHOLE with handle_hold_tap as a callee under contract: one millisecond - timeout counts down, age counts up, both saturating - and THEN the decision table, so the tick on which the last millisecond elapses is the tick that reports the timeout; nothing else of the pending decision or the queue changes; this is the unbounded counterpart of the bounded harnesses c05_b_tick_wt_hold_tap / c05_b_timeout_on_time] [and the two closures the parser builds for tap-hold-release-keys / tap-hold-except-keys (unit customth: each closure BODY is a fragment of parser/src/cfg/custom_tap_hold.rs wrapped in a synthetic signature with the captured key list as a parameter): release-keys == the queued presses in order, a listed key means tap at once, another key that was also released means hold, else look further; except-keys == only the first queued press counts, a listed key means tap, any other key leaves it to release / timeout, no press at all switches the timeout off; unbounded counterparts of c05_b_custom_release_keys / c05_b_custom_except_keys] '
                 'WaitingState::handle_hold_tap, cut whole, returns decision(w, cfg, queue) - the decision table of the statement - for EVERY queue (any length <= the capacity 32) and every clock value, '
                 'against assumed contracts for the queue iterator (next / clone / any / find with pure predicates) and an opaque Custom closure. The EXECUTION of the decision is '
                 'proved unbounded by Verus (unit waiting, text cut from layout.rs): Layout::waiting_into_hold / _tap / _timeout / drop_waiting run exactly the '
@@ -176,7 +176,7 @@ PROPS['C05'] = dict(
     technique='contract harnesses (Kani/CBMC) for the decision: symbolic waiting state + symbolic bounded queue, decision oracle from the statement, frame, must-fail twin; Verus contracts (unbounded) on the extracted waiting_into_* methods with a ghost call log for the execution',
     design_ref='DESIGN.md section 4, C05',
     explanation='handle_hold_tap (Kani bounded AND Verus unbounded): at most one of Tap/Hold/Timeout, never NoOp; Tap iff own release queued before the timeout elapsed; Timeout exactly when it elapses; early Hold on other press (press variant) / other press+release (release variant); queue and clock untouched. waiting_into_hold/_timeout: verif_calls == old.push(decision_call(w, w.hold / w.timeout_action, ..)) - exactly one call, the right action, coordinate and delay, waiting key consumed (for extra_waiting: exactly the idx-th removed); waiting_into_tap: that call first, then only the C09 repeats; drop_waiting: no call. do_action_hold_tap (FRAGMENT: the HoldTap arm of Layout::do_action): an ordinary press creates exactly one pending decision carrying this key\'s hold / tap / timeout actions, timeout (reduced by the queueing delay in quick mode), delay, ticks 0, in the primary slot if free else as one more concurrent one, arms the tap-repress window, and runs NO action; a re-press of the same key inside the window creates no decision and runs the tap action exactly once. tick_dispatch (FRAGMENT: the `match &mut self.waiting` expression of Layout::tick): with tick_wt as a deterministic stub (decide / ticked), exactly the method matching the decision runs on the primary slot - Hold -> hold action, Timeout -> timeout action, Tap -> tap action (+ chord repeats), NoOp -> dropped, None -> nothing and the key stays undecided - and nothing is dequeued while a key is undecided; with no undecided key the oldest queued event is dequeued iff no concurrent tap-hold is pending and the one-shot input pause has run out.',
-    verus=[dict(unit='waiting', only=['waiting_into_hold', 'waiting_into_tap', 'waiting_into_timeout', 'drop_waiting', 'do_action_hold_tap', 'do_action_prologue', 'tick_dispatch', 'event_real', 'from', 'push_back_chv2', 'update_coord', 'update', 'lemma_sigs_push']), dict(unit='holdtap', only=['handle_hold_tap', 'tick_wt', 'coord', 'is_press', 'is_release', 'is_corresponding_release', 'lemma_own_release'], fallback=['c05_b_handle_hold_tap'], cex={'handle_hold_tap': ['c05_b_handle_hold_tap']})],
+    verus=[dict(unit='waiting', only=['waiting_into_hold', 'waiting_into_tap', 'waiting_into_timeout', 'drop_waiting', 'do_action_hold_tap', 'do_action_prologue', 'tick_dispatch', 'event_real', 'from', 'push_back_chv2', 'update_coord', 'update', 'lemma_sigs_push']), dict(unit='holdtap', only=['handle_hold_tap', 'tick_wt', 'coord', 'is_press', 'is_release', 'is_corresponding_release', 'lemma_own_release'], fallback=['c05_b_handle_hold_tap'], cex={'handle_hold_tap': ['c05_b_handle_hold_tap']}), dict(unit='customth')],
     kani=[
         H('keyberon', 'layout', 'c05_b_handle_hold_tap', kind='bounded', bound='queue <= 4 events over 3 keys', functions=[L + 'WaitingState::handle_hold_tap']),
         H('keyberon', 'layout', 'c05_b_tick_wt_hold_tap', kind='bounded', bound='queue <= 4 events over 3 keys', functions=[L + 'WaitingState::tick_wt (HoldTap arm)']),
@@ -189,6 +189,7 @@ PROPS['C05'] = dict(
     ],
     assumptions=[
         'custom closures: Allocations::{sref, bref_slice} (leak-tracking behind a parking_lot mutex) are STUBBED by plain Box::leak in the harness (kani::stub); the closures themselves are the real code',
+        'Verus unit customth: keyberon QueuedIter is a stub (next yields the queued events front to back; clone copies the position; `.copied().any(p)` with a pure predicate, by value); `keys.iter().copied().map(u16::from).any(|j2| j2 == j)` -> an assumed membership helper over the uninterpreted OsCode -> u16 (R43); `for q in queued.by_ref()` -> `while let Some(q) = queued.next()` (R44); the closure passed to any() is annotated from its own text (R12); the allocation around the closures (a.sref, a.sref_vec) and HOW the key list is captured are outside; tick_wt WHOLE in unit holdtap: TapDance(ref tds) -> by-value binding + `let tds = &..` (R31), hand-written postcondition for the closure of ret.map (R35), handle_tap_dance and handle_chord are stubs',
         'Verus unit holdtap: the event queue and its iterator are stubs (iter() yields the queued events front to back; next / clone; any / find taken BY VALUE on temporaries, with PURE predicates: the predicate\'s answers d[i] exist for every remaining element); the four closures are annotated mechanically (R12: `ensures b == (<body>)` generated from the closure\'s own body text; Event::is_press / is_release / coord and is_corresponding_release are extracted and marked when_used_as_spec); `(func)(QueuedIter(queued.iter()))` -> an uninterpreted function of the queue (R30); `Some(&Queued { since, .. })` -> `Some(verif_q)` + `let since = verif_q.since;` (R31, reference patterns are unsupported); the dyn-Fn payload of HoldTapConfig::Custom is an opaque type; loop_isolation(false) on the function; precondition queue length <= 32 (the ArrayDeque capacity)',
         'Verus unit waiting: Layout is sliced (R7) to waiting, extra_waiting, oneshot, last_press_tracker + a ghost call log; Layout::do_action is a STUB (appends one log record, may change every field); ArrayDeque::{get, remove}, heapless::Vec::clone ASSUMED; the layer-stack iterator argument of do_action is abstracted (R5); `pq.iter().copied()[.skip(n)]` -> assumed-equivalent helper (R16)',
         'u16 arithmetic: `w.delay + w.ticks` is a PRECONDITION (<= 65535) of the three waiting_into_* contracts; it is not established by any caller under contract (ticks <= the configured timeout, delay = time the press spent queued; overflow needs a timeout near 65535 ms plus queueing delay and panics only with overflow checks on)',
@@ -322,7 +323,7 @@ PROPS['C02'] = dict(
     technique='contract-based: Verus (overflow/bounds/unwrap/assert sites as obligations) + Kani default checks on the harnesses of C03 C05 C06 C09 C10 C11 C17',
     design_ref='DESIGN.md section 4, C02',
     explanation='union of panic-freedom obligations of every function under contract; the quick tier leaves out only the harnesses that are thorough-tier in their own property and the full-domain key table harness',
-    verus=[dict(unit='dynmacro', only=DYN_FUNCS), dict(unit='switch'), dict(unit='oneshot'), dict(unit='waiting'), dict(unit='ticks'), dict(unit='repeat'), dict(unit='seqs'), dict(unit='layers'), dict(unit='sexpr'), dict(unit='reload'), dict(unit='holdtap'), dict(unit='chordtab'), dict(unit='overrides')],
+    verus=[dict(unit='dynmacro', only=DYN_FUNCS), dict(unit='switch'), dict(unit='oneshot'), dict(unit='waiting'), dict(unit='ticks'), dict(unit='repeat'), dict(unit='seqs'), dict(unit='layers'), dict(unit='sexpr'), dict(unit='reload'), dict(unit='holdtap'), dict(unit='chordtab'), dict(unit='overrides'), dict(unit='customth')],
     kani=_c02_kani(),
     assumptions=[
         'NOT covered: Layout::{tick, do_action, event} outside the fragments named above, resolve_coord, process_sequences, ChordsV2::process_presses, every Kanata method except handle_repeat_actual and handle_scrolling (handle_move_mouse uses f64; tick_sequence_state returns a &mut from a getter), the parser',
